@@ -182,9 +182,15 @@ def make_dep5(rng, clean=False):
             cops.append("Copyright (C) 2015 Shared Holder")
         lic = rng.choice(["MIT", "GPL-3.0-or-later", "Apache-2.0 OR MIT", "CC0-1.0"])
         lines = ["Files: " + rng.choice([" ", "\n ", "  "]).join(pats)]
-        lines.append("Copyright: " + cops[0])
-        for c in cops[1:]:
-            lines.append("  " + c)
+        if rng.random() < 0.2:
+            # the usual Debian layout: nothing behind the field name, every notice on a line of its own
+            lines.append("Copyright:")
+            for c in cops:
+                lines.append("  " + c)
+        else:
+            lines.append("Copyright: " + cops[0])
+            for c in cops[1:]:
+                lines.append("  " + c)
         if rng.random() < 0.25:
             lines.append(f"License: {lic}\n The full text of the licence follows here\n .\n second paragraph of the text")
         else:
